@@ -41,6 +41,53 @@ type Settings struct {
 	// the frame this Settings was decoded from. It lets the receiver apply the
 	// window delta to open streams only when the value actually changed.
 	hasWindowSize bool
+
+	// has records which parameters the frame this Settings was decoded from
+	// actually carried (bit id-1). A SETTINGS frame changes the parameters it
+	// names and nothing else (RFC 7540 6.5.3); without this, a frame that did
+	// not mention a parameter put it back to its default when it was applied.
+	has uint8
+
+	// tableSizeMin is the smallest SETTINGS_HEADER_TABLE_SIZE the frame
+	// carried, when it carried several: the encoder has to signal the smallest
+	// size as well as the final one (RFC 7541 4.2).
+	tableSizeMin uint32
+}
+
+// Has reports whether the frame this Settings was decoded from carried the
+// parameter id.
+func (st *Settings) Has(id uint16) bool {
+	return id >= 1 && id <= 8 && st.has&(1<<(id-1)) != 0
+}
+
+// mergeInto applies to dst the parameters st carried, leaving the others as
+// they are.
+func (st *Settings) mergeInto(dst *Settings) {
+	if st.Has(HeaderTableSize) {
+		dst.tableSize = st.tableSize
+	}
+
+	if st.Has(EnablePush) {
+		dst.enablePush = st.enablePush
+	}
+
+	if st.Has(MaxConcurrentStreams) {
+		dst.maxStreams = st.maxStreams
+	}
+
+	if st.Has(MaxWindowSize) {
+		dst.windowSize = st.windowSize
+	}
+
+	if st.Has(MaxFrameSize) {
+		dst.frameSize = st.frameSize
+	}
+
+	if st.Has(MaxHeaderListSize) {
+		dst.headerSize = st.headerSize
+	}
+
+	dst.has |= st.has
 }
 
 func (st *Settings) Type() FrameType {
@@ -59,6 +106,8 @@ func (st *Settings) Reset() {
 	st.rawSettings = st.rawSettings[:0]
 	st.ack = false
 	st.hasWindowSize = false
+	st.has = 0
+	st.tableSizeMin = defaultHeaderTableSize
 }
 
 // CopyTo copies st fields to st2.
@@ -72,6 +121,8 @@ func (st *Settings) CopyTo(st2 *Settings) {
 	st2.frameSize = st.frameSize
 	st2.headerSize = st.headerSize
 	st2.hasWindowSize = st.hasWindowSize
+	st2.has = st.has
+	st2.tableSizeMin = st.tableSizeMin
 }
 
 // SetHeaderTableSize sets the maximum size of the header
@@ -175,14 +226,24 @@ func (st *Settings) Read(d []byte) error {
 	var value uint32
 
 	last, i, n := 0, 6, len(d)
+	firstTableSize := false
 
 	for i <= n {
 		b = d[last:i]
 		key = uint16(b[0])<<8 | uint16(b[1])
 		value = uint32(b[2])<<24 | uint32(b[3])<<16 | uint32(b[4])<<8 | uint32(b[5])
 
+		if key >= 1 && key <= 8 {
+			st.has |= 1 << (key - 1)
+		}
+
 		switch key {
 		case HeaderTableSize:
+			if !firstTableSize || value < st.tableSizeMin {
+				st.tableSizeMin = value
+			}
+
+			firstTableSize = true
 			st.tableSize = value
 		case EnablePush:
 			if value != 0 && value != 1 {
